@@ -192,6 +192,17 @@ func roundTripWith(v interface{}, tm map[string]reflect.Type, nm map[string]stri
 
 var c16Types []reflect.Type
 
+// c16InPlace: named struct types that are reachable only through a field declared as an in-place struct
+// (TypeMapOf only: what name such a struct itself travels under is not demanded)
+type c16InPlace struct {
+	N    int32
+	Data struct {
+		Items  []*zoo.Inner
+		Cursor *zoo.K00
+	}
+	P *zoo.K01
+}
+
 func init() {
 	c16Types = append(c16Types, zoo.StructTypes...)
 	c16Types = append(c16Types, zoo.T(zoo.Tree{}), zoo.T(zoo.JMap{}), zoo.T(zoo.StrCarrier{}), zoo.T(zoo.TimeCarrier{}), zoo.T(zoo.IntLists{}), zoo.T(zoo.IntMapVals{}), zoo.T(zoo.FloatFields{}))
@@ -272,7 +283,7 @@ func TestC16(t *testing.T) {
 	r := rec.For("C16")
 	// ---- TypeMapOf on every type: terminates (process death is caught by the
 	// driver through the recorder), and holds every reachable struct type
-	for _, typ := range c16Types {
+	for _, typ := range append(append([]reflect.Type{}, c16Types...), zoo.T(c16InPlace{})) {
 		for _, tt := range []reflect.Type{typ, reflect.PtrTo(typ), reflect.SliceOf(typ), reflect.MapOf(reflect.TypeOf(""), reflect.PtrTo(typ))} {
 			r.Current("C16 TypeMapOf(" + tt.String() + ")")
 			var tm map[string]reflect.Type
@@ -290,6 +301,9 @@ func TestC16(t *testing.T) {
 				directFail(t, "C16", map[string]interface{}{"type": tt.String(), "entry": "TypeMapOf"}, "C16 TypeMapOf(%v): a second call returned %d entries, the first %d: the caller's changes to the first result leaked into it", tt, len(tm), len(keys))
 			}
 			for _, st := range reachable(tt).structs {
+				if st.Name() == "" {
+					continue
+				}
 				if wire, declares := declaredWireName(st); declares {
 					if got, ok := tm[wire]; !ok || got != st {
 						directFail(t, "C16", map[string]interface{}{"type": tt.String(), "entry": "TypeMapOf"}, "C16 TypeMapOf(%v) does not map the wire name %q back to %v (has %v)", tt, wire, st, mapKeys(tm))
